@@ -89,3 +89,43 @@ func randomHistory(rng *rand.Rand, maxRevs, nObj int) history {
 	}
 	return h
 }
+
+// enumerate lists every conforming history with exactly nRev revisions over
+// nObj objects (kinds and operations only).  The judge re-checks validity
+// (ValidHistory), so a slip here cannot lead to a false alarm, only to an
+// infrastructure error.
+func enumerate(nRev, nObj int, visit func(history)) {
+	var rec func(h history, st []objState)
+	rec = func(h history, st []objState) {
+		if len(h) == nRev {
+			visit(append(history(nil), h...))
+			return
+		}
+		k := len(h) + 1
+		for _, kind := range []string{"table", "stream", "hybrid"} {
+			ops := make([]string, nObj)
+			var fill func(i int, hidden bool)
+			fill = func(i int, hidden bool) {
+				if i == nObj {
+					if kind == "hybrid" && !hidden {
+						return
+					}
+					ns := make([]objState, nObj)
+					for j := range st {
+						ns[j] = applyOp(st[j], ops[j])
+					}
+					rec(append(h, rev{K: kind, O: append([]string(nil), ops...)}), ns)
+					return
+				}
+				for _, op := range opNames {
+					if opOK(st[i], kind, op, k) {
+						ops[i] = op
+						fill(i+1, hidden || op == "hdef" || op == "hdefc")
+					}
+				}
+			}
+			fill(0, false)
+		}
+	}
+	rec(nil, make([]objState, nObj))
+}
